@@ -576,3 +576,34 @@ fn step_self_despawn(root: bool)
 }
 runner_top_harness!(runner_step_self_despawn_root, 4, { step_self_despawn(true) });
 runner_top_harness!(runner_step_self_despawn_nested, 4, { step_self_despawn(false) });
+
+//-------------------------------------------------------------------------------------------------------------------
+// runner + the REAL callback wrapper (SystemCommandCallback::new -> RawCallbackSystem -> run_initialized_system)
+//-------------------------------------------------------------------------------------------------------------------
+pub struct Mark(pub u8);
+impl Command for Mark { fn apply(self, w: &mut World) { w.resource_mut::<Log>().push(self.0); } }
+
+fn ordinary_counting_system(mut c: Commands, mut log: bevy::ecs::system::ResMut<Log>, mut runs: bevy::ecs::system::Local<u8>)
+{
+    *runs += 1;
+    log.push(40 + *runs);
+    c.queue(Mark(3));
+}
+
+/// S9 (C04/C09/C13): the joined path for an ordinary Bevy system registered the way reactors are: the runner runs the
+/// command's setup, then the system body, then the command's cleanup, and only then the commands the body queued
+/// (so those already see no event data); the system's `Local` continues over two commands; quiescent after each.
+runner_harness!(runner_real_callback_cleanup_before_deferred, 4, {
+    let mut world = mk_world();
+    world.m_apply_table::<(Mark, SystemCommand)>();
+    world.m_drop_table::<bevy::model::cell::LeakAll>();
+    let a = spawn_system_command(&mut world, ordinary_counting_system);
+    syscommand_runner(&mut world, a, setup_k(1, a), cleanup_k(1));
+    assert!(log_is(&world, &[11, 41, 21, 3]), "C04/C09: setup, body, cleanup, THEN the body's deferred commands");
+    assert!(has_callback(&world, a) && counter(&world) == 0, "C11: quiescent");
+    syscommand_runner(&mut world, a, setup_k(2, a), cleanup_k(2));
+    assert!(log_is(&world, &[11, 41, 21, 3, 12, 42, 22, 3]), "C13: the second command's run continues the same Local; C04 again, with the second command's own setup/cleanup");
+    assert!(!lost_system_path_taken());
+    kani::cover!(true, "end of harness reached");
+    std::mem::forget(world);
+});
